@@ -281,8 +281,6 @@ class WebSocket:
 
         # NOTE(kgriffs): Do this first to be sure we clean things up
         #   in the case that we are going to raise an error next.
-        await self._buffered_receiver.stop()
-
         if code is None:
             code = WSCloseCode.NORMAL
         elif not isinstance(code, int):
@@ -291,6 +289,10 @@ class WebSocket:
             raise ValueError('Invalid close code. The value must be >= 1000')
         elif 1015 <= code <= 1999 or 1004 <= code <= 1006:
             raise ValueError('Invalid close code. Only unreserved codes may be used.')
+
+        # NOTE: Only once the arguments are known to be valid; a rejected
+        #   close() must leave the connection usable.
+        await self._buffered_receiver.stop()
 
         # NOTE(kgriffs): Only do this after we validate the code, to avoid
         #   masking errors.
